@@ -11,7 +11,12 @@ What is compared (all *validation per instance*, never a proof):
   one-qubit gates, `use_postselection` both ways) against the source circuit's unitary (the framework's own
   unitary where it offers one, cross-checked with an independent numpy composition);
 * the CNOT labelling, the SWAP permutation, the mode map and the gate dispatch, compared *exactly* with the Lean
-  model (exhaustively on small sizes).
+  model (exhaustively on small sizes);
+* sessions: one converter object converts several circuits one after the other (same gate names with other
+  parameters, cQASM variables re-declared, other sizes): every result against its own source, earlier results
+  observed again afterwards; the component plan of every conversion against the (stateless) Lean model;
+* cQASM v3 programs with several declared qubit variables (arrays / single qubits, any order): port names and the
+  qubit every operand is sent to, exactly against the Lean model (`cqdecl`) and against an independent sum of widths.
 
 Direct oracle (independent of Lean): a numpy Ryser permanent on the same matrix decides `violation` vs `broken`.
 """
@@ -185,6 +190,32 @@ def np_table(u, m, qubits, heralds, ps_fn):
                 continue
             a[i, j] = np_amp(u, s, t)
     return a
+
+
+def np_leak(ob):
+    """largest probability, over the logical inputs, of the outputs that are selected (heralds as declared,
+    post-selection true) but not logical — numpy only"""
+    import perceval as pcvl
+    m, qubits, heralds, ps = ob["m"], ob["qubits"], ob["heralds"], ob["ps"]
+    q = len(qubits)
+    modes = [p for a in qubits for p in (a, a + 1)]
+    outs = []
+    for combo in itertools.combinations_with_replacement(range(2 * q), q):
+        t = [0] * m
+        for k in combo:
+            t[modes[k]] += 1
+        if all(t[a] + t[a + 1] == 1 for a in qubits):
+            continue
+        for h, v in heralds:
+            t[h] = v
+        if ps is not None and not ps(pcvl.BasicState(t)):
+            continue
+        outs.append(t)
+    worst = 0.0
+    for bi in itertools.product((0, 1), repeat=q):
+        s_in = encode(m, qubits, heralds, bi)
+        worst = max(worst, float(sum(abs(np_amp(ob["u"], s_in, t)) ** 2 for t in outs)))
+    return worst
 
 
 def np_fit(a, g):
@@ -767,7 +798,14 @@ def judge(chk, label, ob, g, rep, tol, replay, sig_prefix):
     cn, devn = np_fit(an, np.asarray(g))
     agree = np.max(abs(an - a)) < 1e-9 * max(1.0, np.max(abs(an)))
     for sig, what in bad[:1]:
-        if agree or (abs(cn) > 1e-9 and devn / abs(cn) > tol):
+        if sig == "leak" and photons(ob) <= 7:      # the leak clause evaluated independently of Lean
+            lkn = np_leak(ob)
+            if lkn > 10 * tol * abs(cn) ** 2:
+                chk.fail("violation", f"{sig_prefix}-{sig}", f"{label}: {what}", replay)
+            else:
+                chk.fail("broken", f"{sig_prefix}-{sig}-unconfirmed", f"{label}: {what} (numpy oracle: leak {lkn:.3g})",
+                         replay)
+        elif agree or (abs(cn) > 1e-9 and devn / abs(cn) > tol):
             chk.fail("violation", f"{sig_prefix}-{sig}", f"{label}: {what}", replay)
         else:
             chk.fail("broken", f"{sig_prefix}-{sig}-unconfirmed",
@@ -1054,6 +1092,18 @@ def conv_cases(chk):
     ]
     if chk.thorough:
         shapes.append((4, [("h", [1]), ("cx", [1, 3]), ("cx", [2, 0])]))
+    # a post-processed CNOT whose two qubits are both moved elsewhere by later SWAPs (its post-selection conditions
+    # must follow the photons): needs >= 4 qubits
+    shapes.append((4, [("h", [1]), ("cx", [1, 2]), ("swap", [2, 3]), ("swap", [0, 1])]))
+    for _ in range(chk.pick(3, 10)):
+        a, b, c, d = rng.sample(range(4), 4)
+        sh = [(rng.choice(["h", "x", "s"]), [rng.randrange(4)]) for _ in range(rng.randint(0, 2))]
+        sh += [("h", [a]), ("cx", [a, b])]
+        sw = [("swap", rng.sample([a, c], 2)), ("swap", rng.sample([b, d], 2))]
+        rng.shuffle(sw)
+        sh += sw if rng.random() < 0.7 else [("swap", rng.sample([a, b], 2))] + sw
+        sh += [(rng.choice(["h", "y", "t"]), [rng.randrange(4)]) for _ in range(rng.randint(0, 2))]
+        shapes.append((4, sh))
     for n, sh in shapes:
         ops = [{"g": g[0], "q": list(g[1]), **({"p": g[2]} if len(g) > 2 else {})} for g in sh]
         for fw in ("qiskit", "myqlm", "cqasm"):
@@ -1101,7 +1151,7 @@ def shrink_conv(chk, pool, case, sig, tol):
             r = run_conv_case(c)
         except Exception:
             return False
-        return np_fails(r["ob"], r["g"], tol, zero_counts=sig.endswith("zero-success"))
+        return np_fails(r["ob"], r["g"], tol, zero_counts=sig.endswith("zero-success"), leak=sig.endswith("leak"))
     from . import gens
     try:
         return gens.shrink_list(case["ops"], fails, max_rounds=40)
@@ -1137,12 +1187,14 @@ def handle_tables(chk, pool, items, fixed):
             refine_session_failure(chk, len(chk.failures) - 1, tol)
 
 
-def conv_signature(case, ob):
+def conv_signature(case, ob, kinds=None):
     """stable name of a converter failure: which structural situation is it?"""
     ops = case["ops"]
     hm = {h for h, _ in ob["heralds"]}
     if set(ps_modes(ps_json(ob["ps"]))) & hm:
         return "conv-postselect-on-herald-modes"
+    if case["ups"] and kinds is not None and pp_swapped_away(ops, kinds):
+        return "conv-ppcnot-qubits-swapped-away"
     two = [(o["g"], tuple(sorted(o["q"]))) for o in ops if len(o["q"]) == 2]
     kinds = {g for g, _ in two}
     if case["ups"] and "cx" in kinds and ({"cz", "swap"} & kinds):
@@ -1178,7 +1230,7 @@ def run(chk: core.Check):
                              "conv:ups-false", "conv:generic-twin", "conv:param-twin", "conv:cqasm-multi-decl",
                              "conv:cqasm-single-var", "conv:cqasm-array-before-used-var", "conv:cqasm-names-unsorted",
                              "conv:converter-reused", "conv:reused-generic-twin", "conv:reused-redeclared",
-                             "conv:reused-other-size", "cqprobe", "cqprobe:array-before-used-var",
+                             "conv:reused-other-size", "conv:pp-qubits-swapped-away", "cqprobe", "cqprobe:array-before-used-var",
                              "cqprobe:converter-reused", "label-mixed",
                              "label-with-other-2q", "swap-non-adjacent", "cyclic:True", "cyclic:False", "malformed"]
     import perceval as pcvl
@@ -1284,6 +1336,26 @@ def run(chk: core.Check):
         pool.close()
 
 
+def pp_swapped_away(ops, kinds):
+    """is there a post-processed CNOT such that, at the end of the circuit, neither of the two qubit positions it acted
+    on still holds one of its two qubits (later SWAPs moved both elsewhere)?"""
+    two = [o for o in ops if len(o["q"]) == 2]
+    if len([o for o in two if o["g"] != "swap"]) != len(kinds):
+        return False
+    it = iter(kinds)
+    for i, o in enumerate(two):
+        if o["g"] == "swap" or next(it) != "PostProcessed CNOT":
+            continue
+        pos = list(o["q"])
+        for later in two[i + 1:]:
+            if later["g"] == "swap":
+                x, y = later["q"]
+                pos = [y if v == x else x if v == y else v for v in pos]
+        if not set(pos) & set(o["q"]):
+            return True
+    return False
+
+
 def conv_shape_branches(chk, case, generated):
     """counters of the input shapes the generator must produce (counted on generated cases only, so that the
     stored corpus cannot hide a blind generator)"""
@@ -1347,6 +1419,8 @@ def handle_conv_case(chk, case, items, plan_reqs, plan_meta, fixed, generated=Tr
     if not ups:
         chk.branch("conv:ups-false")
     conv_shape_branches(chk, case, generated)
+    if generated and ups and pp_swapped_away(ops, kinds):
+        chk.branch("conv:pp-qubits-swapped-away")
     chk.count("conv_qubits", n)
     chk.count("conv_gates", len(ops))
     chk.count("conv_photons", photons(ob))
@@ -1365,7 +1439,7 @@ def handle_conv_case(chk, case, items, plan_reqs, plan_meta, fixed, generated=Tr
     plan_reqs.append({"op": "plan", "fixed": fixed, "ups": ups, "gates": gate_seq_for_model(fw, ops)})
     plan_meta.append((replay, label, (kinds, her)))
     tol = GENERIC_TOL if has_generic(fw, ops) else TOL
-    items.append((label, replay, ob, r["g"], tol, sigp or conv_signature(case, ob)))
+    items.append((label, replay, ob, r["g"], tol, sigp or conv_signature(case, ob, kinds)))
     return r
 
 
@@ -1401,7 +1475,8 @@ def mutate_circuit(rng, fw, c, mode):
         old = [nm for nm, _ in c["decl"]]
         d = gen_decl(rng, n, want_array_first=rng.random() < 0.5)
         rng.shuffle(old)
-        c["decl"] = [[(old[i] if i < len(old) else nm), size] for i, (nm, size) in enumerate(d)]
+        names = old + [nm for nm, _ in d if nm not in old]      # the old names first, all distinct
+        c["decl"] = [[names[i], size] for i, (_, size) in enumerate(d)]
     elif mode == "fresh":
         c = session_circuit(rng, fw, n)
     return c          # "repeat": unchanged
@@ -1467,13 +1542,15 @@ def handle_session(chk, sess, items, plan_reqs, plan_meta, fixed, generated=True
                           "conv-session-earlier-result-altered"))
 
 
-def np_fails(ob, g, tol, zero_counts=True):
+def np_fails(ob, g, tol, zero_counts=True, leak=False):
     if photons(ob) > 10:
         return False
     an = np_table(ob["u"], ob["m"], ob["qubits"], ob["heralds"], ob["ps"])
     cn, devn = np_fit(an, g)
     if abs(cn) < 1e-9:
         return zero_counts
+    if leak:
+        return photons(ob) <= 7 and np_leak(ob) > 10 * tol * abs(cn) ** 2
     return devn / abs(cn) > tol
 
 
@@ -1525,7 +1602,7 @@ def refine_session_failure(chk, idx, tol):
     except Exception:
         alone = False
     if alone:
-        sig2 = conv_signature(last, r["ob"]) + sig[len("conv-session"):]
+        sig2 = conv_signature(last, r["ob"], r["plan"][0]) + sig[len("conv-session"):]
         small = shrink_conv(chk, None, last, sig2, tol) if len(last["ops"]) > 1 else last["ops"]
         chk.failures[idx] = (kind, sig2, what + f" — also with a fresh converter [shrunk to "
                              f"{[(o['g'], o['q']) for o in small]}]", dict(last, ops=small))
